@@ -249,6 +249,10 @@ def instrumented(log, inject, st):
 
     assemble_wrapper.__wrapped__ = orig_assemble
     asm.assemble = assemble_wrapper
+    if inject is not None and inject.get('kind') == 'pass' and getattr(asm, inject['pass'], None) is None:
+        # the pass was renamed or merged away in this tree: this crash point does not exist here
+        log.add('INJECT-SKIPPED', inject['pass'])
+        inject = None
     if inject is not None and inject.get('kind') == 'pass':
         name = inject['pass']
         orig = getattr(asm, name)
